@@ -401,3 +401,95 @@ Fixpoint cw_run_obs (wd : world) (ls : bool) (invs : list invocation) (st : cw_s
 Record history := mkH { h_world : world; h_least_slack : bool; h_started : list Z; h_invs : list invocation }.
 Definition cw_observe (h : history) : val :=
   L (cw_run_obs (h_world h) (h_least_slack h) (h_invs h) (cw_start (h_world h) (h_started h))).
+
+(* ---------------------------------------------------------------- monitors (decidable forms, applied to the
+   IMPLEMENTATION's observations; they use the documented comparisons, not the generated ones) *)
+(* the documented admission rule: a request is hopeless when its deadline is before now + the runtime of the
+   fastest strategy of its profile *)
+Definition hopeless (wd : world) (now : Z) (t : task) : bool :=
+  match zassoc (t_model t) wd with
+  | Some ss => match fastest_rt ss with Some f => t_deadline t <? now + f | None => false end
+  | None => false
+  end.
+Fixpoint zmem (x : Z) (l : list Z) : bool := match l with [] => false | y :: l' => (x =? y) || zmem x l' end.
+Fixpoint znodup (l : list Z) : bool := match l with [] => true | x :: l' => negb (zmem x l') && znodup l' end.
+Fixpoint zlist_eqb (a b : list Z) : bool :=
+  match a, b with [] , [] => true | x :: a', y :: b' => (x =? y) && zlist_eqb a' b' | _, _ => false end.
+Fixpoint find_strategy (sid : Z) (ss : list strategy) : option strategy :=
+  match ss with [] => None | s :: ss' => if s_id s =? sid then Some s else find_strategy sid ss' end.
+Fixpoint find_worker (pid wid : Z) (ps : list pool) : option worker :=
+  match ps with
+  | [] => None
+  | p :: ps' => if p_id p =? pid
+                then match filter (fun w => w_id w =? wid) (p_workers p) with w :: _ => Some w | [] => find_worker pid wid ps' end
+                else find_worker pid wid ps'
+  end.
+(* a batch as reported by the implementation: pool, worker, strategy id, start time, members *)
+Record obatch := mkOB { ob_pool : Z; ob_worker : Z; ob_sid : Z; ob_time : Z; ob_tasks : list task }.
+(* C15 for one reported batch, given the worker as the scheduler saw it when it chose the batch *)
+Definition mon_batch (wd : world) (now : Z) (w : worker) (b : obatch) : bool :=
+  match ob_tasks b with
+  | [] => false
+  | t0 :: _ =>
+      match zassoc (t_model t0) wd with
+      | None => false
+      | Some ss =>
+          match find_strategy (ob_sid b) ss with
+          | None => false
+          | Some s =>
+              forallb (fun t => t_model t =? t_model t0) (ob_tasks b)
+              && (zlen (ob_tasks b) =? s_bs s)
+              && (w_is_available w (t_model t0) =? 0)
+              && fits w s
+              && forallb (fun t => now + s_rt s <=? t_deadline t) (ob_tasks b)
+              && (ob_time b =? now)
+          end
+      end
+  end.
+(* all batches of one invocation, in the order they were decided; the worker's resources are re-played *)
+Fixpoint set_worker (pid : Z) (w : worker) (ps : list pool) : list pool :=
+  match ps with
+  | [] => []
+  | p :: ps' => if p_id p =? pid
+                then mkP (p_id p) (map (fun x => if w_id x =? w_id w then w else x) (p_workers p)) :: ps'
+                else p :: set_worker pid w ps'
+  end.
+Fixpoint mon_batches (wd : world) (now : Z) (ps : list pool) (bs : list obatch) : bool :=
+  match bs with
+  | [] => true
+  | b :: bs' =>
+      match find_worker (ob_pool b) (ob_worker b) ps with
+      | None => false
+      | Some w =>
+          mon_batch wd now w b &&
+          match zassoc (match ob_tasks b with t0 :: _ => t_model t0 | [] => 0 end) wd with
+          | Some ss => match find_strategy (ob_sid b) ss with
+                       | Some s => match w_place w s with
+                                   | Ok w1 => mon_batches wd now (set_worker (ob_pool b) w1 ps) bs'
+                                   | Err _ => false
+                                   end
+                       | None => false
+                       end
+          | None => false
+          end
+      end
+  end.
+(* admission: the cancelled ids are exactly the hopeless offered requests, in order *)
+Definition mon_cancel (wd : world) (now : Z) (offered : list task) (cancelled : list Z) : bool :=
+  zlist_eqb (map t_id (filter (hopeless wd now) offered)) cancelled.
+(* one invocation as observed: now, offered, pools as seen, cancelled ids, batches *)
+Record oinv := mkOI { oi_now : Z; oi_offered : list task; oi_pools : list pool; oi_cancelled : list Z; oi_batches : list obatch }.
+Definition oi_placed (o : oinv) : list Z := flat_map (fun b => map t_id (ob_tasks b)) (oi_batches o).
+Definition mon_invocation (wd : world) (o : oinv) : bool :=
+  mon_cancel wd (oi_now o) (oi_offered o) (oi_cancelled o)
+  && mon_batches wd (oi_now o) (oi_pools o) (oi_batches o)
+  (* at most one decision per request, only for offered requests *)
+  && znodup (oi_cancelled o ++ oi_placed o)
+  && forallb (fun i => zmem i (map t_id (oi_offered o))) (oi_cancelled o ++ oi_placed o)
+  (* a hopeless request is never placed *)
+  && forallb (fun b => forallb (fun t => negb (hopeless wd (oi_now o) t)) (ob_tasks b)) (oi_batches o).
+(* over a run: no request is placed twice *)
+Definition mon_once (os : list oinv) : bool := znodup (flat_map oi_placed os).
+Definition mon_history (wd : world) (os : list oinv) : bool := forallb (mon_invocation wd) os && mon_once os.
+(* the model's own decisions in the form of an observation *)
+Definition obatch_of (b : batch) : obatch := mkOB (b_pool b) (w_id (b_worker b)) (s_id (b_strat b)) (b_now b) (b_tasks b).
